@@ -123,12 +123,16 @@ type c13P41 struct {
 	yield bool
 	D, C  c13In
 	gate  *c13Gate
+	pgate *c13Gate // HTTP schedule S5: Process() itself (i.e. under producerLock) can be made to block
 }
 type c13P20 struct {
 	salt  int
 	A, B  c13In
 	yield bool
 	gate  *c13Gate
+	pgate *c13Gate
+	mode  int
+	rowsN int
 }
 
 func (t c13G41) Process() (int, error) {
@@ -138,10 +142,19 @@ func (t c13G20) Process() (int, error) {
 	return c13mix(t.salt, t.yield, []c13In{t.A, t.B}, nil), nil
 }
 func (t c13P41) Process() (artifact.Artifact, error) {
+	t.pgate.pass(0)
 	return c13Art{v: c13mix(t.salt, t.yield, []c13In{t.A, t.B, t.C, t.D}, [][]c13In{t.Xs}), gate: t.gate}, nil
 }
 func (t c13P20) Process() (artifact.Artifact, error) {
-	return c13Art{v: c13mix(t.salt, t.yield, []c13In{t.A, t.B}, nil), gate: t.gate}, nil
+	t.pgate.pass(0)
+	v := c13mix(t.salt, t.yield, []c13In{t.A, t.B}, nil)
+	switch t.mode {
+	case c13ModeRows:
+		return c13RowsArt{k: v, n: t.rowsN}, nil
+	case c13ModeBroken:
+		return c13BrokenArt{k: v}, nil
+	}
+	return c13Art{v: v, gate: t.gate}, nil
 }
 
 // ---- graph description -------------------------------------------------------------------------
@@ -156,6 +169,10 @@ type c13Desc struct {
 	prod  bool
 	yield bool
 	level int
+	// HTTP families only (c13_http.go); the model sees an ordinary S node
+	name  string // producer name ("" = p / p1 / p10 / art<i>.txt)
+	mode  int    // 0 = c13Art; c13ModeRows = many-row artifact; c13ModeBroken = artifact whose Write fails
+	rowsN int
 }
 
 func (d *c13Desc) deps() []int {
@@ -353,6 +370,7 @@ type c13BuildOptions struct {
 	// here (they become generator.App.Files); ids are looked up over HTTP afterwards
 	files     map[string]nodes.NodeOutput[artifact.Artifact]
 	gate      *c13Gate
+	pgate     *c13Gate
 	parPrefix string // parameter Name = parPrefix + node index (default "p")
 }
 
@@ -375,6 +393,9 @@ func c13BuildOpt(g []c13Desc, opt c13BuildOptions) *c13Built {
 	all := make([]nodes.Node, len(g))
 	b.all = all
 	prodName := func(i int) string {
+		if g[i].name != "" {
+			return g[i].name
+		}
 		if prefixNames && len(b.prods) < len(c13PrefixNames) {
 			return c13PrefixNames[len(b.prods)]
 		}
@@ -405,13 +426,13 @@ func c13BuildOpt(g []c13Desc, opt c13BuildOptions) *c13Built {
 			all[i], b.outs[i] = n, n
 			b.strs = append(b.strs, i)
 		case d.hasXs:
-			n := &nodes.Struct[artifact.Artifact, c13P41]{Data: c13P41{A: in(d.sc[0]), B: in(d.sc[1]), C: in(d.sc[2]), D: in(d.sc[3]), Xs: xs, salt: d.salt, yield: d.yield, gate: opt.gate}}
+			n := &nodes.Struct[artifact.Artifact, c13P41]{Data: c13P41{A: in(d.sc[0]), B: in(d.sc[1]), C: in(d.sc[2]), D: in(d.sc[3]), Xs: xs, salt: d.salt, yield: d.yield, gate: opt.gate, pgate: opt.pgate}}
 			all[i] = n
 			b.names[i] = prodName(i)
 			addProducer(b.names[i], n.Out())
 			b.prods = append(b.prods, i)
 		default:
-			n := &nodes.Struct[artifact.Artifact, c13P20]{Data: c13P20{A: in(d.sc[0]), B: in(d.sc[1]), salt: d.salt, yield: d.yield, gate: opt.gate}}
+			n := &nodes.Struct[artifact.Artifact, c13P20]{Data: c13P20{A: in(d.sc[0]), B: in(d.sc[1]), salt: d.salt, yield: d.yield, gate: opt.gate, pgate: opt.pgate, mode: d.mode, rowsN: d.rowsN}}
 			all[i] = n
 			b.names[i] = prodName(i)
 			addProducer(b.names[i], n.Out())
